@@ -1,5 +1,5 @@
 (* C12 — Bookmarks resume exactly; stale/foreign bookmarks rejected; tails exact. Statements only. *)
-From Verif Require Import Ring RingProofs WatchProofs.
+From Verif Require Import Ring RingProofs WatchProofs TailOne.
 Open Scope Z_scope.
 
 Theorem C12_decode_encode : forall cookie p,
@@ -56,6 +56,20 @@ Theorem C12_tail_exact : forall initcap c log n pos,
 Proof. exact tail_all_exact. Qed.
 Print Assumptions C12_tail_exact.
 
+(* single-resource tails: within the window, exactly the last min(n, available) events of this id lie at or after the
+   start position, the start is the n-th last event of this id unless the window was exhausted, and everything from
+   the start on is still live (equals the log) *)
+Theorem C12_single_tail_exact : forall initcap c log id n pos,
+  RInv initcap c log -> 0 <= c_gap c < c_cap c -> 0 < n ->
+  start_one c id (STail n) = Some pos ->
+  let minpos := Z.max (c_wpos c - c_cap c + c_gap c) 0 in
+  minpos <= pos <= c_wpos c /\
+  cntdown c id (Z.to_nat (c_wpos c - pos)) (c_wpos c) =
+    Z.min n (cntdown c id (Z.to_nat (c_wpos c - minpos)) (c_wpos c)) /\
+  (pos = minpos \/ hit c id pos = 1) /\
+  (forall q, pos <= q < c_wpos c -> ring_get c q = log_at log q).
+Proof. exact single_tail_exact. Qed.
+Print Assumptions C12_single_tail_exact.
 Example C12_nonvacuous :
   let cookie := [1;2;3;4;5;6;7;8]%N in
   decode_bookmark cookie (encode_bookmark cookie (-1)) = Some (-1) /\
